@@ -363,8 +363,9 @@ def run_amb(prop, tier, seed, rep, t0):
     states = transitions = 0
     check_cfgs = ["DidStore.amb.%s.cfg" % tier, "DidStore.chain.cfg", "DidStore.hist.%s.cfg" % tier]
     for cfg in check_cfgs:
-        # -coverage slows TLC down by an order of magnitude: the vacuity guard of the thorough tier uses the small chain configuration
-        m = tlc_ok(cfg, (not quick) and cfg == "DidStore.chain.cfg", "prescriptive receive pipeline")
+        # -coverage slows TLC down by an order of magnitude and, with the history-based reference operators, made the chain configuration
+        # run out of memory: the vacuity guard of the thorough tier uses the small history configuration
+        m = tlc_ok(cfg, (not quick) and cfg == "DidStore.hist.thorough.cfg", "prescriptive receive pipeline")
         models.append(model_entry(cfg, m, properties="KeysChangeOnlyByAuthorized RejectedChangesNothing NoPanic StoredWereAccepted DeactivatedForever OrderIndependent CountersExact"))
         cover.update(m.coverage)
         states += m.distinct
